@@ -143,6 +143,7 @@ def from_array(
         ftype = _infer_ftype(data)
         check_ftype = False  # already done
     if ftype == "nextxy":
+        data = np.asarray(data)  # ([:,:], [:,:]) to [2,:,:]
         shape = data[0].shape
         ndim = data[0].ndim
     else:
@@ -158,7 +159,7 @@ def from_array(
     if check_ftype and not fd.isvalid(data):
         raise ValueError(f'The flow direction data with type "{ftype}" is invalid.')
     if mask is not None:
-        if mask.shape != data.shape:
+        if mask.shape != shape and mask.shape != data.shape:
             raise ValueError('"mask" shape does not match with data shape')
         data = np.where(mask != 0, data, fd._mv)
 
